@@ -16,7 +16,10 @@ def gen_cases(prop, tier, seed, n_quick, n_thorough, families, history_kind='mix
         fam = families[i % len(families)]
         over = {k: (v[i % len(v)] if isinstance(v, (list, tuple)) else v) for k, v in fixed.items()}
         pool = over.pop('pool', None) or str(pools[(i * 5 + i // len(families)) % len(pools)])
-        pspec = workloads.gen_problem(rng, family=fam, prior=over.pop('prior', None), blobs=over.pop('blobs', None),
+        prior = over.pop('prior', None)
+        if prior is None and pool in ('l2', 'l3', 'l4', 'b2') and i % 2 == 0:
+            prior = 'func_inplace'      # a prior that modifies its argument, evaluated next to a likelihood pool
+        pspec = workloads.gen_problem(rng, family=fam, prior=prior, blobs=over.pop('blobs', None),
                                       vectorized=over.pop('vectorized', None))
         if pool in ('l2', 'b2', 'l4', 'l3'):
             pspec['vectorized'] = False      # the likelihood pool is only used for scalar likelihoods
@@ -48,7 +51,7 @@ def run(spec, monitors, budget=4_000_000, code_raise_is_violation=None):
     """Drive the case. Returns (status, info). A raise of the code under test is reported through
     `code_raise_is_violation(exc, driver)` -> violation dict or None (=> skipped, out of domain)."""
     with env.Scratch('nmon-s') as scratch:
-        drv = drive.Driver(spec, monitors, scratch, budget=budget)
+        drv = drive.Driver(spec, monitors, scratch, budget=budget, n_like_cap=spec.get('n_like_cap'))
         try:
             st = drv.run_history(spec['hist'])
         except Exception as e:
